@@ -261,7 +261,7 @@ fn emit_cases(sys: &Sys, it: &mut Interner, before: &Snapshot, after: &Snapshot,
             ca_term(it, post), objects_term(it, &after.objs[h]), renew_term);
         let mut o = out.lock().unwrap();
         // C03 "parent removed": once a CA has removed a parent (the revocation requests are sent as part of that
-        // command), that parent must no longer hold a certificate - issued or suspended - for any key of the class(es)
+        // command), that parent must no longer hold an issued certificate for any key of the class(es)
         // the CA had under it
         for v in pre["version"].as_u64().unwrap_or(0)..post["version"].as_u64().unwrap_or(0) {
             let Some(sc) = stored_command(sys, h, v) else { continue };
@@ -282,7 +282,10 @@ fn emit_cases(sys: &Sys, it: &mut Interner, before: &Snapshot, after: &Snapshot,
                 }
                 if let Some(Some(pca)) = after.ca.get(parent) {
                     for rc in pca["resources"].as_object().map(|m| m.values().collect::<Vec<_>>()).unwrap_or_default() {
-                        for sect in ["issued", "suspended"] {
+                        // (an entry left in the `suspended` map is not a certificate the parent holds: it was withdrawn and
+                        // revoked when the child was suspended; process_child_remove leaves such entries behind - noted in
+                        // DESIGN 9.3 as an observation outside the property)
+                        for sect in ["issued"] {
                             if let Some(Value::Object(m)) = rc["certificates"].get(sect) {
                                 for k in &keys { if m.contains_key(k) {
                                     let idx = o.w.total;
